@@ -241,7 +241,7 @@ def run_case(case):
     pos = (pf > 1e-290) & np.isfinite(pf)      # below that pdf is denormal and log(pdf) is not a reference
     try:
         lp = call('log_probability_density', fin.copy())
-        bad = ~(np.abs(lp[pos] - np.log(pf[pos])) <= 1e-8 * np.maximum(1, np.abs(np.log(pf[pos]))))
+        bad = ~(np.abs(lp[pos] - np.log(pf[pos])) <= 1e-6 * np.maximum(1, np.abs(np.log(pf[pos]))))
         r.ev(int(pos.sum()))
         if bad.any():
             i = int(np.nonzero(bad)[0][0])
